@@ -30,6 +30,11 @@ Inductive op :=
 | Ctor (asmap : bool) (ps : list (Z * Z)).  (* d = TraitDict(dict(ps) / ps, validators): a new object, the history
                                                continues on it (for a Dict trait: owner.d = dict(ps) / ps) *)
 
+(* Key atoms >= 300 are unhashable objects (lists): `key in self` and dict access raise TypeError.  Modelled
+   for __setitem__, __delitem__ and setdefault; pop (where CPython answers an empty dict without hashing the key)
+   and the bulk operations treat every key as hashable — the generator gives them hashable keys only. *)
+Definition hashable (k : Z) : bool := k <? 300.
+
 (* A notification as a plain notifier receives it: (removed, added, changed). *)
 Definition ev3 := (amap * amap * amap)%type.
 (* A DictChangeEvent as an observe() handler receives it: (removed, added). *)
@@ -137,10 +142,12 @@ Section WithValidators.
         | None => raise TraitError m
         | Some vk => match vv v with
                      | None => raise TraitError m
-                     | Some vvv => store m vk vvv RNone
+                     | Some vvv => if hashable vk then store m vk vvv RNone
+                                   else raise TypeError m          (* `validated_key in self` *)
                      end
         end
     | DelItem k =>                                 (* __delitem__, l.185-201: raw key *)
+        if negb (hashable k) then raise TypeError m else           (* `key in self` *)
         match lookup k m with
         | Some x => ok (mremove k m) [([(k, x)], [], [])] RNone
         | None => raise KeyError m                 (* super().__delitem__ raises before notify *)
@@ -148,6 +155,7 @@ Section WithValidators.
     | Update asmap ps => do_update m asmap ps      (* update, l.241-269 *)
     | Ior asmap ps => do_update m asmap ps         (* __ior__, l.204-232 (returns self) *)
     | SetDefault k v =>                            (* setdefault, l.271-296 *)
+        if negb (hashable k) then raise TypeError m else           (* `key in self` *)
         match lookup k m with
         | Some x => ok m [] (RVal x)               (* if key in self: return self[key] — raw key *)
         | None =>
@@ -155,7 +163,8 @@ Section WithValidators.
             | None => raise TraitError m
             | Some vk => match vv v with
                          | None => raise TraitError m
-                         | Some vvv => store m vk vvv (RVal vvv)   (* overwrites when vk is present: F6 *)
+                         | Some vvv => if hashable vk then store m vk vvv (RVal vvv)   (* overwrites when vk is present: F6 *)
+                                       else raise TypeError m
                          end
             end
         end
